@@ -151,8 +151,20 @@ class Log(object):
 def instrument(house, log, pre=None, post=None, send_hook=None):
     """Wrap every act of every framer of the built house. Returns list of framers."""
     from ioflo.base import framing
-    framers = [t for t in house.taskers if isinstance(t, framing.Framer)]
+    from ioflo.base.globaling import MOOT
+    done = getattr(house, "_vp_instrumented", None)
+    if done is None:
+        done = house._vp_instrumented = set()
+    # moot framers are templates: never resolved, deep-copied when cloned -> left untouched
+    framers = [t for t in house.taskers if isinstance(t, framing.Framer) and t.schedule != MOOT]
+    # clones reared at run time are registered in the house's tasker registry only
+    for t in list(house.names.get("tasker", {}).values()) if hasattr(house, "names") else []:
+        if isinstance(t, framing.Framer) and t.schedule != MOOT and t not in framers:
+            framers.append(t)
     for fr in framers:
+        if id(fr) in done:
+            continue
+        done.add(id(fr))
         for frame in fr.frameNames.values():
             for ctx, lst in (("benter", frame.beacts), ("precur", frame.preacts), ("enter", frame.enacts),
                              ("renter", frame.renacts), ("recur", frame.reacts), ("exit", frame.exacts),
@@ -173,8 +185,9 @@ def instrument(house, log, pre=None, post=None, send_hook=None):
             for meth in ("enter", "exit", "renter", "rexit", "recur", "precur"):
                 _wrap_frame_method(frame, fr.name, meth, log)
         _wrap_framer_methods(fr, log)
-    for t in house.taskers:
-        t.runner = RunnerProxy(t, log, send_hook)
+    for t in list(house.taskers) + framers:
+        if not isinstance(t.runner, RunnerProxy):
+            t.runner = RunnerProxy(t, log, send_hook)
     return framers
 
 
@@ -253,6 +266,61 @@ def pool_paths(prog):
                 for n in a.get("needs") or []:
                     need_paths(n)
     return seen
+
+
+def dump_store(house):
+    """{share path: [[field, value], ...]} for every share of the house's store"""
+    out = {}
+
+    def walk(node, prefix):
+        from ioflo.base import storing
+        for name, child in node.items():
+            path = prefix + "." + name if prefix else name
+            if isinstance(child, storing.Share):
+                out[path] = [[k, repr(v) if not isinstance(v, (int, float, str, bool, type(None))) else v] for k, v in child.items()]
+            elif isinstance(child, storing.Node):
+                walk(child, path)
+    walk(house.store.shares, "")
+    return out
+
+
+def run_text(text, ticks, period="0.125", paths=()):
+    """Build + run an arbitrary script text with the same instrumentation (framers created at run
+    time, e.g. reared clones, are instrumented at the next tick boundary). Adds trace["store"] (all
+    shares after the run) and trace["names"] (framer/tasker registry names after the run)."""
+    env.quiet_ioflo()
+    b = build_text(text, period=float(period))
+    trace = {"build": b.outcome, "detail": "" if b.exc is None else str(b.exc)[:300], "ticks": [],
+             "final": None, "exc": None, "interrupted": False, "text": text}
+    if not b.ok:
+        return trace
+    house = b.houses[0]
+    log = Log()
+    holder = {"framers": instrument(house, log)}
+    stamp2tick = {}
+
+    def on_tick(i, stamp):
+        stamp2tick[stamp] = i
+        if i > 0:
+            holder["framers"] = instrument(house, log)
+            trace["ticks"].append({"events": log.cur, "snap": snapshot(house, holder["framers"], paths, stamp2tick)})
+            log.cur = []
+    sk = b.skedder
+    tb = TickBound(sk, ticks, on_tick)
+    try:
+        sk.run()
+    except Exception as ex:
+        trace["exc"] = type(ex).__name__
+        trace["exc_detail"] = str(ex)[:300]
+    trace["interrupted"] = tb.interrupted
+    holder["framers"] = instrument(house, log)
+    trace["final"] = {"events": log.cur, "snap": snapshot(house, holder["framers"], paths, stamp2tick)}
+    trace["nticks"] = tb.tick + 1
+    trace["store"] = dump_store(house)
+    house.assignRegistries()
+    from ioflo.base import framing
+    trace["names"] = sorted(framing.Framer.Names.keys())
+    return trace
 
 
 def run_real(prog, ticks=None, crash=None, text=None):
